@@ -11,7 +11,7 @@ PID = 'C15'
 HARNESS = 'h_c15'
 MODEL_MODULE = 'V.C15.Model'
 READY = True
-RULE = ('cases = (1..6 options over kinds {flag store_true, flag store_false, int, string, vector<int>, ValueMap int, custom notifier} '
+RULE = ('cases = (1..6 options over kinds {flag store_true, flag store_false, int, string, vector<int>, ValueMap int, custom notifier, ValueMap flag store_true, ValueMap flag store_false} '
         'x composing x implicit x default(valid/invalid), 1..5 operations over assign(source of 0..7 (option,value) pairs with duplicates '
         'and refused strings at every position, optional exclude set) / assignDefaults / fresh ParsedOptions); '
         'non-trivial = at least one assign op with >= 1 pair; distinct = distinct case tuples')
@@ -25,10 +25,13 @@ TECHNIQUE = 'Coq proof about an executable model of Value::parse / ParsedOptions
 DESIGN_REF = 'DESIGN.md section 5, C15'
 LEVEL_TEXT = ('Machine-checked proofs (Coq) over the model of ParsedOptions::assign (value states, scope guard run on the exception path) and '
               'assignDefaults, generic in the option set, the per-option parser, the sources and the exclude sets; the model is tied to the code by '
-              'differential correspondence against the real classes with seven kinds of typed targets, and an independent python oracle.')
+              'differential correspondence against the real classes with nine kinds of typed targets, and an independent python oracle.')
 LEVEL_NOTE = 'Parsers are abstract in the proofs (any function string -> option value, plus what a refused string leaves in the variable).'
 
 INT_MIN, INT_MAX = -2 ** 31, 2 ** 31 - 1
+FLAGS = (0, 1, 7, 8)          # bool flags: bound to a bool& (0, 1) or stored in a ValueMap (7, 8)
+STORE_TRUE = (0, 7)           # declared with store_true (the default action); 1 and 8 are declared with store_false
+NKINDS = 9
 BOOL_WORDS = [('1', 1), ('0', 0), ('no', 0), ('on', 1), ('yes', 1), ('off', 0), ('true', 1), ('false', 0)]
 
 
@@ -58,7 +61,7 @@ def decode(c):
         d = ost()
         if impl is not None and not impl:
             impl = [49]
-        if impl is None and kind in (0, 1):
+        if impl is None and kind in FLAGS:
             impl = [49]
         opts.append({'kind': kind, 'comp': comp, 'impl': impl, 'dflt': d})
     ops = []
@@ -87,12 +90,12 @@ def s2t(b):
     return bytes(x & 255 for x in b).decode('latin-1')
 
 
-KN = ['flag', 'flag!false', 'int', 'string', 'vector<int>', 'map<int>', 'custom']
+KN = ['flag', 'flag!false', 'int', 'string', 'vector<int>', 'map<int>', 'custom', 'map<flag>', 'map<flag!false>']
 
 
 def describe(c):
     opts, ops = decode(c)
-    od = ['o%d:%s%s%s%s' % (i, KN[o['kind']] if 0 <= o['kind'] < 7 else '?', '+composing' if o['comp'] else '',
+    od = ['o%d:%s%s%s%s' % (i, KN[o['kind']] if 0 <= o['kind'] < len(KN) else '?', '+composing' if o['comp'] else '',
                             '' if o['impl'] is None else ' implicit=%r' % s2t(o['impl']),
                             '' if o['dflt'] is None else ' default=%r' % s2t(o['dflt'])) for i, o in enumerate(opts)]
     pd = []
@@ -124,15 +127,18 @@ def scan_int(s):
 
 def parse(kind, s):
     """-> (accepted value or None, dirty?)   dirty: the refused string may have changed the variable"""
-    if kind in (0, 1):
+    if kind in FLAGS:
+        # store_true: empty -> true, else the bool keyword; store_false: the NEGATION of what store_true yields for the same string.
+        # The same for a flag whose bool lives in a ValueMap (kinds 7, 8): the action given to the factory decides, not the storage.
+        pos = kind in STORE_TRUE
         if not s:
-            return [1 if kind == 0 else 0], False
+            return [1 if pos else 0], False
         t = s2t(s)
         for w, b in BOOL_WORDS:
             if t.startswith(w):
                 if len(t) == len(w):
-                    return [b if kind == 0 else 1 - b], False
-                return None, kind == 0
+                    return [b if pos else 1 - b], False
+                return None, pos
         return None, False
     if kind in (2, 5):
         r = scan_int(s)
@@ -167,7 +173,7 @@ def parse(kind, s):
 
 
 def init_var(kind):
-    return [0] if kind in (0, 1) else [-777] if kind == 2 else []
+    return [0] if kind in (0, 1) else [-777] if kind == 2 else []     # mapped values (5, 7, 8) are absent until the first accepted value
 
 
 def store(kind, x, var):
@@ -289,11 +295,13 @@ def enc_str(s):
 GOOD = {0: ['', '1', '0', 'yes', 'no', 'on', 'off', 'true', 'false'], 1: ['', '1', '0', 'no', 'true'],
         2: ['0', '7', '-5', '12', '+3', '2147483647', '-2147483648', '100', ' 4'],
         3: ['', 'a', 'hello world', 'x=1', '--o1', '\xff\x01', 'a,b'],
-        4: ['1', '1,2', '3,4,5', '-1,0', '7'], 5: ['1', '42', '-9', '2147483647'], 6: ['', 'a', 'abc', ' x', 'a!']}
+        4: ['1', '1,2', '3,4,5', '-1,0', '7'], 5: ['1', '42', '-9', '2147483647'], 6: ['', 'a', 'abc', ' x', 'a!'],
+        7: ['', '1', '0', 'yes', 'no', 'on', 'off', 'true', 'false'], 8: ['', '1', '0', 'no', 'true', 'off', 'yes']}
 BAD = {0: ['x', '1x', 'truex', 'nope', 'o', 'TRUE', 'yes ', '2'], 1: ['x', '0x', 'offf', 'f'],
        2: ['', 'x', '1x', '-', '--1', '1,2', '12 ', '2147483648', '-2147483649', '99999999999999999999', '1.5', '+-1'],
        3: [], 4: ['', 'x', '1,', ',1', '1,,2', '1,x', '1x', '1;2', '2147483648', '1,2147483648'],
-       5: ['', 'x', '5x', '2147483648', 'a1'], 6: ['!', '!a', '!!']}
+       5: ['', 'x', '5x', '2147483648', 'a1'], 6: ['!', '!a', '!!'],
+       7: ['x', '1x', 'truex', 'nope', 'o', 'TRUE', 'yes ', '2'], 8: ['x', '0x', 'offf', 'f', '1x']}
 
 
 def rand_val(rnd, kind, p_bad):
@@ -308,7 +316,7 @@ def gen_case(rnd, shape=None):
     kinds = []
     impls = []
     for i in range(n):
-        k = rnd.randrange(7)
+        k = rnd.randrange(NKINDS)
         kinds.append(k)
         comp = 1 if rnd.random() < (0.6 if k in (4, 6) else 0.25) else 0
         enc += [k, comp]
@@ -318,7 +326,7 @@ def gen_case(rnd, shape=None):
             impls.append(True)
         else:
             enc += [0]
-            impls.append(k in (0, 1))
+            impls.append(k in FLAGS)
         if rnd.random() < 0.45:
             enc += [1] + enc_str(rand_val(rnd, k, 0.25))
         else:
@@ -354,7 +362,7 @@ def gen_case(rnd, shape=None):
         enc += [len(pairs)]
         for i in pairs:
             v = rand_val(rnd, kinds[i], p_bad)
-            if v == '' and not impls[i] and kinds[i] in (0, 1):
+            if v == '' and not impls[i] and kinds[i] in FLAGS:
                 v = '1'
             enc += [i] + enc_str(v)
     return enc
@@ -373,6 +381,12 @@ FIXED = [
     [2, 2, 0, 0, 1, 1, 120, 2, 0, 0, 1, 1, 53, 2],
     # flag with empty value / implicit
     [2, 0, 0, 0, 0, 2, 0, 1, 2, 52, 50, 0, 1, 0, 2, 0, 0, 1, 0, 2],
+    # mapped flag declared with store_false: implicit value -> false
+    [1, 8, 0, 0, 0, 1, 0, 1, 0, 0],
+    # mapped flags, store_true and store_false (default 'off' -> true): assign(o0='off') -> defaults
+    [2, 7, 0, 0, 0, 8, 0, 0, 1, 3, 111, 102, 102, 1, 0, 1, 0, 3, 111, 102, 102, 2],
+    # bool& and mapped store_false side by side, explicit values, then a refused string on both mapped flags
+    [4, 1, 0, 0, 0, 8, 0, 0, 0, 7, 1, 0, 0, 8, 1, 0, 0, 1, 0, 6, 0, 2, 110, 111, 1, 2, 110, 111, 2, 1, 49, 3, 1, 48, 2, 2, 49, 120, 3, 2, 49, 120],
 ]
 
 
